@@ -25,6 +25,14 @@ claimed = {
    text="Seeded search over third-party interference instants (by virtual time and by scheduler decision index, between and inside control cycles), externally written modes/PWM values, curve trajectories, algorithms and read-back-faithful PWM maps, against the real controller + real hwmon fan code in virtual time; oracle on driver files and the public statistics after the next full cycle. A clean batch is evidence, not proof.",
    note=L1NOTE+"Interference that lands inside a running cycle is only required to be undone and counted at most once.",
    tech="deterministic simulation (seeded schedule + third-party fault injection), oracle on driver state per control cycle"),
+ "C06": dict(cat="exploration", ref="§3/C06",
+   text="Generated curve graphs (linear, step sets, PID, all six function types nested to depth 4) are evaluated by a harness task inside the simulation over sensor states from the extreme set and at seeded virtual gaps; every reachable curve's value is compared with reference semantics written from the property text. Honest scope: reference-model comparison hosted by the simulator; the simulated clock is essential only for PID curves.",
+   note="Trusted: the reference semantics in sim/refmodel (clamped interpolation, aggregate definitions, PID term), tolerance +-1 inside linear segments and for the PID term, none at saturation / step points / aggregates; the first PID evaluation is range-checked only.",
+   tech="reference-model comparison inside the deterministic simulation (virtual clock for PID curves)"),
+ "C07": dict(cat="exploration", ref="§3/C07",
+   text="Dense temperature sweeps (1..100 m° grid) over generated monotone curve graphs, and slow temperature ramps through the real closed loop with the direct algorithm (window 1, poll = tick) for arbitrary fan limits and non-decreasing PWM maps: curve value and written PWM must never drop while the temperature rises. A 75 °C ramp costs seconds of virtual time.",
+   note="Honest scope: the curve part is a property of pure functions; the closed-loop part (rescale, nearest lookup, write skip) is decided by running the system. Twin-world comparison was replaced by ramps.",
+   tech="deterministic simulation (virtual-time ramps through the closed loop) + dense sweep of the real curve code"),
  "C08": dict(cat="exploration", ref="§3/C08",
    text="The real sensor monitor polls hwmon, file and cmd sensors in virtual time over seeded reading programmes and window sizes 1..50 while read faults (missing/empty/garbage/huge file, EIO, EACCES, command exit!=0, timeout, killed, nan/inf/garbage/empty output) are injected at seeded polls; after every poll the smoothed value is checked against hull, geometric convergence and exact invariance under failed polls.",
    note=L1NOTE+"EIO/EACCES and command timeouts are returned by the seam instead of the failing syscall; all other faults are produced by changing the real file / script so that the repository's own parsing runs. Floating-point tolerance 1e-12 (hull) / 1e-9 (convergence).",
